@@ -160,4 +160,155 @@ Proof.
   intros H. destruct (exp fuel hs env t) eqn:E; [eauto|].
   exfalso. now apply (proj1 (exp_terminates_both fuel) hs env t H).
 Qed.
+
+(* ---- (b) on non-recursive tables the result is call-by-name substitution *)
+Variable rank : str -> nat.
+Notation CBN := (CBN tb).
+Notation CBNA := (CBNA tb).
+Notation okt := (okt tb rank).
+Notation oka := (oka tb rank).
+
+Lemma sb_end sg : subst sg TEnd = TEnd. Proof. reflexivity. Qed.
+Lemma sb_sym sg s r : subst sg (TSym s r) = TSym s (subst sg r). Proof. reflexivity. Qed.
+Lemma sb_id sg n r : subst sg (TId n r) = TId n (subst sg r). Proof. reflexivity. Qed.
+Lemma sb_par sg i r : subst sg (TPar i r) = tapp (anth i sg) (subst sg r). Proof. reflexivity. Qed.
+Lemma sb_call sg n a r : subst sg (TCall n a r) = TCall n (substa sg a) (subst sg r). Proof. reflexivity. Qed.
+Lemma sba_nil sg : substa sg ANil = ANil. Proof. reflexivity. Qed.
+Lemma sba_cons sg t a : substa sg (ACons t a) = ACons (subst sg t) (substa sg a). Proof. reflexivity. Qed.
+Lemma ok_sym b s r : okt b (TSym s r) = okt b r. Proof. reflexivity. Qed.
+Lemma ok_par b i r : okt b (TPar i r) = okt b r. Proof. reflexivity. Qed.
+Lemma ok_id b n r : okt b (TId n r) =
+  (match lookup tb n with Some (Obj _) => (rank n < b)%nat | Some (Fn _ _) => False | None => True end /\ okt b r).
+Proof. reflexivity. Qed.
+Lemma ok_call b n a r : okt b (TCall n a r) =
+  (match lookup tb n with Some (Fn np _) => (rank n < b)%nat /\ alen a = np | Some (Obj _) => False | None => True end
+   /\ oka b a /\ okt b r).
+Proof. reflexivity. Qed.
+Lemma oka_cons b t a : oka b (ACons t a) = (okt b t /\ oka b a). Proof. reflexivity. Qed.
+
+Lemma alen_substa sg a : alen (substa sg a) = alen a.
+Proof. induction a as [|t a IH]; [reflexivity|]. rewrite sba_cons. cbn. now rewrite IH. Qed.
+
+Lemma cbn_tapp a oa b ob : CBN a oa -> CBN b ob -> CBN (tapp a b) (oa ++ ob).
+Proof.
+  intros Ha Hb. induction Ha; cbn [tapp app].
+  - exact Hb.
+  - now constructor.
+  - rewrite <- app_assoc. eapply CBN_obj; eauto.
+  - now apply CBN_id.
+  - rewrite <- app_assoc. eapply CBN_fn; eauto.
+  - replace ((commas ea ++ RP :: o) ++ ob) with (commas ea ++ RP :: (o ++ ob)) by (now rewrite <- app_assoc).
+    now apply CBN_call.
+Qed.
+
+Lemma cbn_anth sg env : CBNA sg env -> forall i, CBN (anth i sg) (nth i env []).
+Proof.
+  induction 1 as [|t a x l Ht Ha IH]; intros i.
+  - destruct i; constructor.
+  - destruct i; cbn; [exact Ht|apply IH].
+Qed.
+
+Lemma rank_not_hidden n bound hs :
+  (rank n < bound)%nat -> (forall h, In h hs -> (bound <= rank h)%nat) -> mem n hs = false.
+Proof.
+  intros R H. destruct (mem n hs) eqn:E; [|reflexivity].
+  unfold mem in E. apply existsb_exists in E. destruct E as [h [Hh E]]. apply str_eqb_eq in E. subst.
+  specialize (H _ Hh). lia.
+Qed.
+
+Hypothesis NR : nonrec tb rank.
+
+Lemma exp_sound fuel :
+  (forall hs env sg t o bound,
+     exp fuel hs env t = Some o -> okt bound t -> (forall h, In h hs -> (bound <= rank h)%nat) -> CBNA sg env ->
+     CBN (subst sg t) o) /\
+  (forall hs env sg a ea bound,
+     exps fuel hs env a = Some ea -> oka bound a -> (forall h, In h hs -> (bound <= rank h)%nat) -> CBNA sg env ->
+     CBNA (substa sg a) ea).
+Proof.
+  induction fuel as [|f [IHt IHa]]; [split; intros; discriminate|].
+  split.
+  - intros hs env sg t o bound E OK HS EN. rewrite exp_S in E.
+    destruct t as [|s r|n r|i r|n a r].
+    + inversion E; subst. rewrite sb_end. constructor.
+    + rewrite ok_sym in OK. rewrite sb_sym.
+      destruct (exp f hs env r) as [o'|] eqn:Er; [|discriminate]. inversion E; subst.
+      constructor. eapply IHt; eauto.
+    + rewrite ok_id in OK. destruct OK as [OKn OKr]. rewrite sb_id.
+      destruct (lookup tb n) as [[body|np body]|] eqn:L.
+      * rewrite (rank_not_hidden n bound hs OKn HS) in E.
+        destruct (exp f (n :: hs) [] body) as [o1|] eqn:E1; [|discriminate].
+        destruct (exp f hs env r) as [o2|] eqn:E2; [|discriminate]. inversion E; subst.
+        eapply CBN_obj; [exact L| |eapply IHt; eauto].
+        eapply (IHt (n :: hs) [] ANil body o1 (rank n) E1).
+        -- exact (NR n (Obj body) L).
+        -- intros h [<-|Hh]; [lia|]. specialize (HS _ Hh). lia.
+        -- constructor.
+      * destruct OKn.
+      * destruct (exp f hs env r) as [o'|] eqn:Er; [|discriminate]. inversion E; subst.
+        apply CBN_id; [intros b; congruence|]. eapply IHt; eauto.
+    + rewrite ok_par in OK. rewrite sb_par.
+      destruct (exp f hs env r) as [o'|] eqn:Er; [|discriminate]. inversion E; subst.
+      apply cbn_tapp; [now apply cbn_anth|eapply IHt; eauto].
+    + rewrite ok_call in OK. destruct OK as [OKn [OKa OKr]]. rewrite sb_call.
+      destruct (exps f hs env a) as [ea|] eqn:Ea; [|discriminate].
+      assert (CA : CBNA (substa sg a) ea) by (eapply IHa; eauto).
+      destruct (lookup tb n) as [[body|np body]|] eqn:L.
+      * destruct OKn.
+      * destruct OKn as [R AL].
+        rewrite (rank_not_hidden n bound hs R HS) in E. rewrite AL, Nat.eqb_refl in E. cbn [negb andb] in E.
+        destruct (exp f (n :: hs) ea body) as [o1|] eqn:E1; [|discriminate].
+        destruct (exp f hs env r) as [o2|] eqn:E2; [|discriminate]. inversion E; subst.
+        eapply CBN_fn; [exact L|apply alen_substa| |eapply IHt; eauto].
+        eapply (IHt (n :: hs) ea (substa sg a) body o1 (rank n) E1).
+        -- exact (NR n (Fn (alen a) body) L).
+        -- intros h [<-|Hh]; [lia|]. specialize (HS _ Hh). lia.
+        -- exact CA.
+      * destruct (exp f hs env r) as [o'|] eqn:Er; [|discriminate]. inversion E; subst.
+        apply CBN_call; [exact L|exact CA|eapply IHt; eauto].
+  - intros hs env sg a ea bound E OK HS EN. rewrite exps_S in E.
+    destruct a as [|t a'].
+    + inversion E; subst. rewrite sba_nil. constructor.
+    + rewrite oka_cons in OK. destruct OK as [OKt OKa]. rewrite sba_cons.
+      destruct (exp f hs env t) as [x|] eqn:Et; [|discriminate].
+      destruct (exps f hs env a') as [l|] eqn:El; [|discriminate]. inversion E; subst.
+      constructor; [eapply IHt; eauto|eapply IHa; eauto].
+Qed.
+
+(* for a closed, parameter-free sequence over a non-recursive table the expansion is the call-by-name result *)
+Theorem expand_eq_call_by_name fuel bound t o :
+  okt bound t -> exp fuel [] [] t = Some o -> CBN (subst ANil t) o.
+Proof.
+  intros OK E. eapply (proj1 (exp_sound fuel) [] [] ANil t o bound E OK); [intros h []|constructor].
+Qed.
+
+(* and such a result always exists *)
+Theorem expand_total_call_by_name bound t :
+  okt bound t -> exists o, exp (S (enough [] (tsize t))) [] [] t = Some o /\ CBN (subst ANil t) o.
+Proof.
+  intros OK. destruct (expand_terminates [] [] t (S (enough [] (tsize t)))) as [o E]; [lia|].
+  exists o. split; [exact E|]. eapply expand_eq_call_by_name; eauto.
+Qed.
 End Proofs.
+
+(* the hypotheses are inhabited:  #define G(x) x + x   /   #define F(y) G(y) ;   F(G(1)) *)
+Definition nG : str := [71%N]. Definition nF : str := [70%N].
+Definition tb_ex : table :=
+  [(nG, Fn 1 (TPar 0 (TSym [43%N] (TPar 0 TEnd)))); (nF, Fn 1 (TCall nG (ACons (TPar 0 TEnd) ANil) (TSym [59%N] TEnd)))].
+Definition rank_ex (n : str) : nat := if str_eqb n nF then 1 else 0.
+Definition use_ex : term := TCall nF (ACons (TCall nG (ACons (TSym [49%N] TEnd) ANil) TEnd) ANil) TEnd.
+
+Lemma nonrec_ex : nonrec tb_ex rank_ex.
+Proof.
+  intros n d H. unfold tb_ex in H. cbn [lookup] in H.
+  destruct (str_eqb n nG) eqn:E1.
+  - inversion H; subst. cbn. tauto.
+  - destruct (str_eqb n nF) eqn:E2; [|discriminate].
+    inversion H; subst. apply str_eqb_eq in E2. subst. cbn. repeat split; auto.
+Qed.
+
+Lemma okt_ex : okt tb_ex rank_ex 2 use_ex.
+Proof. cbn. repeat split; auto. Qed.
+
+Example expand_ex : exp tb_ex 40 [] [] use_ex = Some [[49%N]; [43%N]; [49%N]; [43%N]; [49%N]; [43%N]; [49%N]; [59%N]].   (* 1 + 1 + 1 + 1 ; *)
+Proof. vm_compute. reflexivity. Qed.
